@@ -476,7 +476,7 @@ class Translator:
         if isinstance(a, NoneV):
             return a
         if isinstance(a, Obj):
-            keys = set(a.attrs) | set(b.attrs)
+            keys = list(a.attrs) + [k_ for k_ in b.attrs if k_ not in a.attrs]
             out = {}
             for k in keys:
                 if k in a.attrs and k in b.attrs:
@@ -927,7 +927,7 @@ class Translator:
                     b = self.with_assume(cx, c, False, lambda: self.ex(list(st.orelse) + list(rest), self.copy_env(env), cx, k))
                     return a if a == b else f'if {c} then\n{a}\nelse\n{b}'
                 merged = {}
-                for name in set(ea) | set(eb):
+                for name in list(ea) + [n_ for n_ in eb if n_ not in ea]:
                     if name in ea and name in eb:
                         try:
                             merged[name] = self.merge(c, ea[name], eb[name], cx)
